@@ -144,9 +144,11 @@ def plan(tier, seed):
 def oracle(ctx):
   fails = _check_model(ctx, ctx.outcome.model, '')
   # "never returns a model that violates any of these": also the model returned
-  # by a SECOND quantize() on the same Quantizer object (shipped recipes only,
-  # to bound the cost)
-  if ctx.subkey.startswith('R1:') and ctx.outcome.qt is not None:
+  # by a SECOND quantize() on the same Quantizer object (shipped recipes, and
+  # every recipe of the three-operator / chain / star / blockwise families,
+  # where per-operator rules insert ops at float boundaries)
+  if (ctx.subkey.startswith('R1:') or ctx.case.get('rp') in
+      ('n3q', 'n3', 'chain', 'star', 'blk')) and ctx.outcome.qt is not None:
     import copy
     try:
       again = bytes(ctx.outcome.qt.quantize(
